@@ -299,6 +299,8 @@ def run_scenario(sc):
                 per_client[key] = per_client.get(key, 0) + 1
                 for af in api_faults:
                     if (af["client"], af["api"]) == key and af["nth"] == per_client[key]:
+                        if af.get("event") and holder_net.get("cluster_event"):
+                            holder_net["cluster_event"](dict(af["event"]))     # e.g. the coordinator fails over right now
                         return Fault(af["kind"], af.get("code", 0), af.get("delay", 0.0))
             if info["api"] not in apis or not counter["on"]:
                 return None
@@ -408,6 +410,7 @@ def run_scenario(sc):
                     net.topics[e["topic"]][p] = PartitionLog(e["topic"], p, p % len(net.brokers))
             net.ev("cluster_event", **e)
 
+        holder_net["cluster_event"] = cluster_event
         for e in sc.get("cluster_events") or []:
             loop.call_later(e["at"], cluster_event, e)
 
